@@ -18,3 +18,31 @@ func VerifC20Tokenizer() {
 	rt.Reach("returned")
 	rt.Assert(pt.Loc <= n, "token location beyond the text")
 }
+
+// verifC20TokContexts: openings that put the tokenizer into its deeper states.
+var verifC20TokContexts = []string{
+	"a ", "a b", "a $b", "a $b[", "a @b[", "a \"", "a '", "a (", "a {", "a %[", "a %{", "a %(", "a <", "a -> ", "a | b ",
+	"a = ", "a #", "a /#", "a ${", "a @{", "a \\", "a: ", "a; ", "a \"$(", "a [", "a [[", "a ~", "}", "a }", "a )", "a ]",
+	"a \"${", "a '(", "a (\"", "a => ", "a ?", "a é", "^", "a ^", "a -> [", "a \t",
+}
+
+// VerifC20TokenizerContext: Parse(context + tail, pos) for every context, every tail of 0..n runes
+// (printable ASCII, newline, tab, carriage return) and every cursor position.
+func VerifC20TokenizerContext() {
+	k := rt.Param("contexts")
+	if k > len(verifC20TokContexts) {
+		k = len(verifC20TokContexts)
+	}
+	ctx := []rune(verifC20TokContexts[rt.Choice("context", k)])
+	tail := rt.Runes("tail", rt.Choice("len", rt.Param("n")+1))
+	for i := range tail {
+		c := tail[i]
+		rt.Assume(rt.Or(rt.Or(rt.And(c >= ' ', c <= '~'), rt.Or(c == '\n', c == '\t')), c == '\r'))
+	}
+	text := append(ctx, tail...)
+	text = text[:len(text):len(text)]
+	pos := rt.IntRange("pos", 0, len(text))
+	pt, _ := Parse(text, pos)
+	rt.Reach("context-returned")
+	rt.Assert(pt.Loc <= len(text), "token location beyond the text")
+}
